@@ -1272,7 +1272,17 @@ func (it *Interp) makeSlice(x *ssa.MakeSlice, lv, cv Value) Value {
 			if it.branch(it.ctx.Eq(ct, lt), "makecap") {
 				ct = lt
 			} else {
-				it.inconclusive("symbolic capacity differing from length")
+				// make([]T, n, c) with an input-dependent capacity hint: case-split like lengths
+				cc := make([]*Term, B+2)
+				for i := 0; i <= B; i++ {
+					cc[i] = it.ctx.Eq(ct, it.ctx.BV(uint64(i), 64))
+				}
+				cc[B+1] = it.ctx.ULT(it.ctx.BV(uint64(B), 64), ct)
+				dc := it.decide(cc, "makeslice-cap@"+it.site())
+				if dc == B+1 {
+					panic(pathEnd{"truncated", fmt.Sprintf("allocation capacity > %d at %s (outside bound)", B, it.site())})
+				}
+				ct = it.ctx.BV(uint64(dc), 64)
 			}
 		}
 	}
